@@ -230,7 +230,7 @@ var (
 	ipLiterals    = []string{"[::1]", "[2001:db8::7]", "[::ffff:192.0.2.1]", "[1:2:3:4:5:6:7:8]", "[::]", "[v1.a]", "[vF.a:b]", "[2001:DB8::A]"}
 	userinfos     = []string{"u", "u:p", "", ":", "a%40b", "%41", "u;v=1", "é", "a:b:c", "%c3%a9", "u!$&'()*+,;="}
 	ports         = []string{"", "80", "0", "8080", "00080", "65536"}
-	segPool       = []string{"", "", ".", ".", "..", "..", "a", "b", "c", "a.b", "..a", "a..", "...", ".a", "%2e", "%2E", "%2e%2E", ".%2e", "%41", "%7e", "%7E", "~", "a%2Fb", "a%2fb", "%20", "%25", "é", "%C3%A9", "%c3%a9", "日本", "a:b", ":", "@", "a@b", "a;b=1", "(x)", "a,b", "a+b", "*", "!", "$&'", "A", "a=b", "\U0001F41B", "%00", "%e9", "-", "_"}
+	segPool       = []string{"", "", ".", ".", "..", "..", "a", "b", "c", "a.b", "..a", "a..", "...", ".a", "%2e", "%2E", "%2e%2E", ".%2e", "%41", "%7e", "%7E", "~", "a%2Fb", "a%2fb", "%20", "%25", "é", "%C3%A9", "%c3%a9", "日本", "a:b", ":", "@", "a@b", "a;b=1", "(x)", "a,b", "a+b", "*", "!", "$&'", "A", "a=b", "\U0001F41B", "%00", "%e9", "-", "_", "%2A", "%2a", "%3ab", "%3Aé", "%2fx", "*"}
 	queryPool     = []string{"", "", "a", "a=b", "a=b&c=d", "/", "?", "a/b?c", "%3f", "%3F", "é", "%C3%A9", "", "a:b@c", "..", "/../x", "a%20b", "%41", "+"}
 	fragPool      = []string{"", "", "a", "f", "/", "?", "a/b?c", "é", "%C3%A9", "%c3%a9", "%41", "..", "/../x", "a:b@c", "%20", "(x)", "a%23b", "!$&'()*+,;="}
 )
